@@ -912,8 +912,26 @@ func ruleCompressFrame(c *Ctx) {
 		// the decoder fills both from the wire: the flag is assigned from the first byte
 		nb++
 		key := FuncKey(fd.Obj) + ".flag-with-body"
-		if ok, path := f.mustBefore(f.Entry(), body, f.WriteSites(fFlags), nil); ok {
-			c.OK(key, c.P.Pos(body[0].node.Pos()), "every path to the assignment of the wire body passes an assignment of the Flags field")
+		flagW := f.WriteSites(fFlags)
+		ok, path := f.mustBefore(f.Entry(), body, flagW, nil)
+		if !ok {
+			// ... or the flag is written after the body on every path to a return
+			after := true
+			for _, b := range body {
+				var rets []site
+				for _, r := range f.Returns() {
+					rets = append(rets, r)
+				}
+				if ok2, _ := f.mustBefore([]*cfg.Block{b.blk}, rets, flagAfter(flagW, b), nil); !ok2 {
+					after = false
+				}
+			}
+			if after && len(flagW) > 0 {
+				ok = true
+			}
+		}
+		if ok {
+			c.OK(key, c.P.Pos(body[0].node.Pos()), "every path that assigns the wire body also assigns the Flags field")
 		} else {
 			c.Fail(key, c.P.Pos(body[0].node.Pos()), fmt.Sprintf("%s assigns the message's wire body on a path that leaves Flags as they were (%s): a Message encoded twice (with and without compression for a mixed peer set) or encoded after being decoded from a compressed packet announces Compressed over a plain body", FuncKey(fd.Obj), strings.Join(path, " -> ")))
 		}
@@ -1060,4 +1078,16 @@ func ruleDecoderPanics(c *Ctx) {
 	}
 	c.Floor("binary decoder entry points", len(roots), 60)
 	c.Floor("functions reachable from decoders", len(fns), 100)
+}
+
+// flagAfter keeps the flag writes that are not before the body write inside the body write's own block.
+func flagAfter(ws []site, body site) []site {
+	var out []site
+	for _, w := range ws {
+		if w.blk == body.blk && w.idx < body.idx {
+			continue
+		}
+		out = append(out, w)
+	}
+	return out
 }
